@@ -3,8 +3,8 @@
 keep a confirmed seeded change as /verif/seeded/<ID>-<n>/ {patch.diff, demo.rs, meta.json} from /tmp/wt-out/<ID>/"""
 import json, os, shutil, sys
 pid, n, site, needs = sys.argv[1], sys.argv[2], sys.argv[3], sys.argv[4]
-src = "/tmp/wt-out/%s" % pid
-dst = "/verif/seeded/%s-%s" % (pid, n)
+src = os.environ.get("SEED_OUT", "/tmp/wt-out/%s" % pid)
+dst = "/verif/seeded/%s-%s" % (pid, os.environ.get("SEED_AS", n))   # round 2: SEED_OUT=/tmp/wt2-out/Cnn SEED_AS=3|4
 os.makedirs(dst, exist_ok=True)
 shutil.copy(os.path.join(src, "patch%s.diff" % n), os.path.join(dst, "patch.diff"))
 shutil.copy(os.path.join(src, "demo%s.rs" % n), os.path.join(dst, "demo.rs"))
